@@ -211,6 +211,8 @@ def run_FF9(chk):
                         f"a charged state built this way has zero overlap with every conventional MPS/MPO")
 
 MUTANTS = [
+    ('first member counted twice', 'yastn/tn/mps/_env.py', '        tmp = self.envs[0].project_ket_on_bra_2(bd)\n        for env in self.envs[1:]:', '        tmp = self.envs[0].project_ket_on_bra_2(bd)\n        for env in self.envs:', 'FF10'),
+    ('numpy scalar converted to float', 'yastn/tn/mps/_mps_parent.py', '            return rhs.__mul__(lhs)', '            return rhs.__mul__(float(lhs))', 'FF10'),
     ('truediv keeps the phase of the divisor', 'yastn/tn/mps/_mps_parent.py', '        return self.__mul__(1 / number)', '        phi = self.shallow_copy()\n        am = abs(number)\n        phi.factor = self.factor / am\n        phi.A[0] = phi.A[0] * (number / am)\n        return phi', 'FF3'),
     ('charge absorbed by the last virtual leg', 'yastn/tn/mps/_initialize.py', '    ten = ten.add_leg(axis=0, s=-1).add_leg(axis=-nr_phys, s=1)', '    ten = ten.add_leg(axis=-nr_phys, s=1).add_leg(axis=0, s=-1)', 'FF9'),
     ("Heff2 forgets factor", "yastn/tn/mps/_env.py", "        tmp = tensordot(self.F[n1 - 1, n1], tmp, axes=((0, 1), (3, 0)))\n        return tmp * self.op.factor\n\n    def hole(self, n):", "        tmp = tensordot(self.F[n1 - 1, n1], tmp, axes=((0, 1), (3, 0)))\n        return tmp\n\n    def hole(self, n):", "FF2"),
